@@ -205,6 +205,81 @@ Definition reserve (size : Z) (r : rst) : res rst :=
   else Ok (set_limits r (maxsz r - size) (reserved r + size)).
 Definition release_reserved (r : rst) : rst := set_limits r (maxsz r + reserved r) 0.
 
+(* ---------- EDNS options with a class of their own (dns/edns.py) ----------
+   An option is kept as (code, to_wire() octets).  `opt_dec code data` is <Class>.from_wire_parser on the
+   octets of one option followed by to_wire(): the octets of the option object the reader builds, or the
+   error.  Everything raised inside runs under dns.rdata.from_wire_parser's ExceptionWrapper(FormError),
+   so every failure (ValueError of a constructor, SyntaxError of inet_ntoa, a short read, the exact
+   consumption check of restrict_to) is a FormError. *)
+(* bytes.decode("utf8") succeeds (strict: no overlong forms, no surrogates, at most U+10FFFF) *)
+Definition u8cont (c : Z) : bool := (128 <=? c) && (c <=? 191).
+Fixpoint utf8_ok (l : list Z) : bool :=
+  match l with
+  | [] => true
+  | b :: r =>
+      if b <? 128 then utf8_ok r
+      else if (194 <=? b) && (b <=? 223) then
+        match r with c1 :: r1 => u8cont c1 && utf8_ok r1 | _ => false end
+      else if (224 <=? b) && (b <=? 239) then
+        match r with
+        | c1 :: c2 :: r2 =>
+            (if b =? 224 then (160 <=? c1) && (c1 <=? 191)
+             else if b =? 237 then (128 <=? c1) && (c1 <=? 159)
+             else u8cont c1) && u8cont c2 && utf8_ok r2
+        | _ => false
+        end
+      else if (240 <=? b) && (b <=? 244) then
+        match r with
+        | c1 :: c2 :: c3 :: r3 =>
+            (if b =? 240 then (144 <=? c1) && (c1 <=? 191)
+             else if b =? 244 then (128 <=? c1) && (c1 <=? 143)
+             else u8cont c1) && u8cont c2 && u8cont c3 && utf8_ok r3
+        | _ => false
+        end
+      else false
+  end.
+
+(* bytes.rstrip(b"\x00") *)
+Fixpoint rstrip0 (l : list Z) : list Z :=
+  match l with
+  | [] => []
+  | b :: r => match rstrip0 r with [] => if b =? 0 then [] else [b] | r' => b :: r' end
+  end.
+
+(* ECSOption.__init__: the last octet of the prefix keeps its srclen mod 8 leading bits *)
+Definition ecs_mask (src : Z) (p : list Z) : list Z :=
+  let nbits := src mod 8 in
+  if nbits =? 0 then p
+  else removelast p ++ [Z.land (last p 0) (Z.shiftl 255 (8 - nbits))].
+
+Definition opt_dec (code : Z) (data : list Z) : res (list Z) :=
+  if code =? 3 then Ok data                                         (* NSID: get_remaining *)
+  else if code =? 10 then                                           (* COOKIE: client 8, server 0 or 8..32 *)
+    let n := zlen data in
+    if (n =? 8) || ((16 <=? n) && (n <=? 40)) then Ok data else Lib eFormError
+  else if (22 <=? code) && (code <=? 25) then                       (* EDE language, filtering contact / organization / db *)
+    if utf8_ok data then Ok data else Lib eFormError
+  else if code =? 15 then                                           (* EDE: info code, text without trailing NULs *)
+    match data with
+    | a :: b :: text =>
+        let t := rstrip0 text in
+        if utf8_ok t then Ok (a :: b :: t) else Lib eFormError
+    | _ => Lib eFormError
+    end
+  else if code =? 8 then                                            (* ECS *)
+    match data with
+    | f1 :: f2 :: src :: scope :: prefix =>
+        let family := f1 * 256 + f2 in
+        let bits := if family =? 1 then 32 else 128 in
+        if negb ((family =? 1) || (family =? 2)) then Lib eFormError
+        else if negb (zlen prefix =? (src + 7) / 8) then Lib eFormError
+        else if (bits <? src) || (bits <? scope) then Lib eFormError
+        else Ok (f1 :: f2 :: src :: scope :: ecs_mask src prefix)
+    | _ => Lib eFormError
+    end
+  else if code =? 18 then Lib eUnmodelled                           (* REPORTCHANNEL *)
+  else Ok data.                                                     (* GenericOption *)
+
 (* OPT rdata: OPT._to_wire *)
 Fixpoint opts_wire (os : list (Z * list Z)) : res (list Z) :=
   match os with
@@ -655,7 +730,10 @@ Section Reader.
     end.
 
   (* option codes with a specific class in dns.edns._type_to_class *)
+  (* the option codes with a class of their own (dns.edns._type_to_class) *)
   Definition special_options : list Z := [3; 8; 10; 15; 18; 22; 23; 24; 25].
+  (* ... of which this one (REPORTCHANNEL: a name read with the message parser) is outside the model *)
+  Definition unmodelled_options : list Z := [18].
 
   (* OPT.from_wire_parser *)
   Fixpoint opts_loop (fuel : nat) (endp cur : nat) (acc : list (Z * list Z)) : res (list (Z * list Z)) :=
@@ -667,8 +745,8 @@ Section Reader.
           do otype <- rd_u16 endp cur;
           do olen <- rd_u16 endp (cur + 2);
           do data <- rd_bytes endp (cur + 4) (Z.to_nat olen);
-          if zmem otype special_options then Lib eUnmodelled
-          else opts_loop f endp (cur + 4 + Z.to_nat olen) ((otype, data) :: acc)
+          do d <- opt_dec otype data;
+          opts_loop f endp (cur + 4 + Z.to_nat olen) ((otype, d) :: acc)
     end.
 End Reader.
 
